@@ -1461,35 +1461,3 @@ fn font(cff2: bool) -> impl Strategy<Value = CffFont> {
 pub fn strategy() -> impl Strategy<Value = CffFont> {
     prop_oneof![3 => font(false), 1 => font(true)]
 }
-
-#[cfg(test)]
-mod dbg {
-    use super::*;
-    use proptest::strategy::ValueTree;
-    use proptest::test_runner::TestRunner;
-    #[test]
-    fn layout() {
-        use skrifa::outline::{Engine, HintingInstance, HintingOptions};
-        use skrifa::prelude::{LocationRef, Size};
-        use skrifa::MetadataProvider;
-        let mut r = TestRunner::deterministic();
-        let s = strategy();
-        let mut tally = std::collections::BTreeMap::<String, u32>::new();
-        for _ in 0..3000 {
-            let f = s.new_tree(&mut r).unwrap().current();
-            let b = build(&f);
-            let font = skrifa::FontRef::new(&b).unwrap();
-            let o = font.outline_glyphs();
-            let key = match HintingInstance::new(&o, Size::new(16.0), LocationRef::default(), HintingOptions { engine: Engine::Interpreter, target: Default::default() }) {
-                Ok(_) => "ok".to_string(),
-                Err(e) => format!("{e:?}"),
-            };
-            let key = key.split(|c: char| c.is_ascii_digit()).next().unwrap().to_string();
-            let k = format!("{key} cff2={} fmt_none={}", f.cff2, o.format().is_none());
-            *tally.entry(k).or_default() += 1;
-        }
-        for (k, v) in tally {
-            println!("{v:5} {k}");
-        }
-    }
-}
